@@ -143,7 +143,7 @@ def determinism(props: list[str], n: int = 12) -> int:
 	from tranpsim.check import ENGINES
 	bad = 0
 	for prop in props or sorted(ENGINES):
-		idx = ','.join(str(i) for i in range(0, n * 3, 3))
+		idx = ','.join(str(i) for i in range(0, n * 2, 2))
 		a = digests(prop, idx, '0', '1')
 		b = digests(prop, idx, '1', '1')
 		c = digests(prop, idx, '12345', '1')
